@@ -40,11 +40,23 @@ class ExcelType:
         if isinstance(value, cls):
             return value
         if not isinstance(value, ExcelType):
-            if type(value) not in NATIVE_TO_XLTYPE:
+            xltype = cls._native_to_xltype(value)
+            if xltype is None:
                 raise xlerrors.ValueExcelError(
                     f'Unknown object type: {type(value)} ({value})')
-            value = NATIVE_TO_XLTYPE[type(value)](value)
+            value = xltype(value)
         return getattr(value, f'__{cls.__name__}__')()
+
+    @staticmethod
+    def _native_to_xltype(value):
+        xltype = NATIVE_TO_XLTYPE.get(type(value))
+        if xltype is None:
+            # numpy scalars of any width (int32, float32, bool_ ...)
+            if isinstance(value, numpy.bool_):
+                return lambda value: Boolean(bool(value))
+            if isinstance(value, (numpy.integer, numpy.floating)):
+                return Number
+        return xltype
 
     @classmethod
     def is_type(cls, value):
@@ -56,7 +68,10 @@ class ExcelType:
             return value
         if isinstance(value, tuple(NATIVE_TO_XLTYPE.values())):
             return value
-        return NATIVE_TO_XLTYPE[type(value)](value)
+        xltype = cls._native_to_xltype(value)
+        if xltype is None:
+            raise KeyError(type(value))
+        return xltype(value)
 
     def _sort_key(self, other):
         return (self.sort_precedence, self.value)
